@@ -106,6 +106,7 @@ class Report:
         self.findings = load_findings()
         self.min_hits = {}
         self.harness_errors = []
+        self.covered = set()
 
     # -- accumulation -------------------------------------------------
     def add_part(self, name, states, transitions, nontrivial, exhaustive,
@@ -200,6 +201,19 @@ class Report:
             unlisted_violation_signatures=unlisted,
             repo=env.REPO, workers=env.WORKERS,
         )
+        try:
+            from mc import cover
+            self.covered |= cover.drain()
+            anchors = []
+            with open(os.path.join(env.VERIF, 'properties.jsonl')) as fin:
+                for line in fin:
+                    rec = json.loads(line)
+                    if rec['id'] == self.prop:
+                        anchors = rec['anchors']['files']
+            coverage['anchored_line_coverage'] = cover.summary(self.covered,
+                                                               anchors)
+        except Exception as exc:      # coverage is information only
+            coverage['anchored_line_coverage'] = {'error': repr(exc)}
         coverage.update(jsonable(self.extra))
         evidence = dict(property_id=self.prop, tier=self.tier, seed=env.SEED,
                         level=LEVEL, coverage=coverage,
